@@ -59,7 +59,7 @@ fn tombstone_seed(fill: u8, remove: u8) -> Vec<MapOp> {
     v
 }
 
-fn mk<K: KeyT, V: ValT>(plan: Plan, universe: u8, seeds: Vec<Vec<MapOp>>, depth: Option<u32>, tier: Tier, need_inplace: bool, tag: &str) -> Box<dyn Config> {
+pub fn mk<K: KeyT, V: ValT>(plan: Plan, universe: u8, seeds: Vec<Vec<MapOp>>, depth: Option<u32>, tier: Tier, need_inplace: bool, tag: &str) -> Box<dyn Config> {
     let mut c = MapCfg::new(plan, universe);
     c.max_buckets = if super::width() == 16 { 64 } else { 32 };
     let mut cs = c.clone();
